@@ -79,6 +79,102 @@ func (ck *Check) executorOf(fn *ssa.Function) (*ssa.Function, *ssa.Call) {
 	return writer, via
 }
 
+// writeHelperCalls: w.Fn is a helper whose only effect on its node parameter is to hand it to the
+// client's Update (no store into it, the parameter itself is the argument), it returns the
+// Update's own result (or nil next to an error), and it is called only — statically — by the two
+// writers. Returns those calls.
+func (ck *Check) writeHelperCalls(w Site) ([]*ssa.Call, bool) {
+	h := w.Fn
+	upd, ok := w.Call.(*ssa.Call)
+	if !ok || h == nil || h.Blocks == nil {
+		return nil, false
+	}
+	for _, o := range ck.A.W {
+		if o.Fn == h && o.Call != w.Call {
+			return nil, false
+		}
+	}
+	var prm *ssa.Parameter
+	for _, av := range upd.Common().Args {
+		if pt, ok := av.Type().(*types.Pointer); ok && strings.HasSuffix(typeName(pt.Elem()), "v1.Node") {
+			prm, _ = av.(*ssa.Parameter)
+		}
+	}
+	if prm == nil || prm.Parent() != h {
+		return nil, false
+	}
+	// nothing is written through the parameter, and it goes nowhere else but field reads
+	ctx := ck.P.NewCtx(h)
+	for _, b := range h.Blocks {
+		for _, in := range b.Instrs {
+			if st, ok := in.(*ssa.Store); ok {
+				if _, rooted := rootedAt(ctx, st.Addr, paramTerm(prm)); rooted {
+					return nil, false
+				}
+			}
+			if c, ok := in.(ssa.CallInstruction); ok && in != ssa.Instruction(upd) {
+				for _, av := range c.Common().Args {
+					if av == ssa.Value(prm) {
+						return nil, false
+					}
+				}
+			}
+		}
+	}
+	// the result: the Update's, or nil
+	res := h.Signature.Results()
+	if res.Len() != 2 || !isErrorType(res.At(1).Type()) {
+		return nil, false
+	}
+	for _, b := range h.Blocks {
+		r, ok := b.Instrs[len(b.Instrs)-1].(*ssa.Return)
+		if !ok {
+			continue
+		}
+		switch x := r.Results[0].(type) {
+		case *ssa.Const:
+			if !x.IsNil() {
+				return nil, false
+			}
+			// nil only next to an error
+			if f, ok := ctx.nilDecided(r.Results[1], 0); !(ok && f == FFalse) {
+				if imp, _, _ := Entails(ctx.BlockPC(b), Not(cmpFormula(token.EQL, ctx.Term(r.Results[1]), &Term{Kind: "const", Name: "nil"}))); !imp {
+					return nil, false
+				}
+			}
+		case *ssa.Extract:
+			if x.Tuple != ssa.Value(upd) || x.Index != 0 {
+				return nil, false
+			}
+		default:
+			return nil, false
+		}
+	}
+	var calls []*ssa.Call
+	for _, c := range ck.P.callers[h] {
+		if c != ck.A.AddTaint && c != ck.A.DelTaint {
+			return nil, false
+		}
+		sites := callsTo(c, h)
+		if len(sites) == 0 {
+			return nil, false
+		}
+		for _, ci := range sites {
+			call, ok := ci.(*ssa.Call)
+			if !ok {
+				return nil, false
+			}
+			calls = append(calls, call)
+		}
+	}
+	for _, g := range ck.P.addressTaken() {
+		if g == h {
+			return nil, false
+		}
+	}
+	return calls, len(calls) > 0
+}
+
 func (ck *Check) updateSites(rule string) []*updSite {
 	var out []*updSite
 	for _, w := range ck.A.W {
@@ -89,6 +185,30 @@ func (ck *Check) updateSites(rule string) []*updSite {
 		us.get = ck.getCallIn(w.Fn)
 		key := ck.P.siteKey(w.Call)
 		if w.Fn != ck.A.AddTaint && w.Fn != ck.A.DelTaint {
+			// a write helper shared by the two writers — h(node) = client.Update(node), nothing else: its
+			// calls in the writers are the update sites
+			if calls, ok := ck.writeHelperCalls(w); ok {
+				for _, call := range calls {
+					wr := call.Parent()
+					hs := &updSite{fn: wr, ctx: ck.P.NewCtx(wr), upd: call, get: ck.getCallIn(wr)}
+					hkey := ck.P.siteKey(call)
+					if hs.get == nil {
+						ck.fail(rule, hkey+"/fresh", ck.P.instrPos(call), funcID(wr), "the updated object is fetched with Get in the same call", "no Get", "the cached (possibly stale) node is written back")
+						continue
+					}
+					hs.fetched = &Term{Kind: "extract", Name: "0", Args: []*Term{hs.ctx.Term(hs.get)}}
+					var obj *Term
+					for _, av := range call.Common().Args {
+						if pt, ok := av.Type().(*types.Pointer); ok && strings.HasSuffix(typeName(pt.Elem()), "v1.Node") {
+							obj = hs.ctx.Term(av)
+						}
+					}
+					ck.cond(obj != nil && obj.Key() == hs.fetched.Key(), rule, hkey+"/fresh", ck.P.instrPos(call), funcID(wr), "Update is given the object returned by Get in this call", fmt.Sprint(obj), "the cached node (or a rebuilt object) is written, discarding concurrent changes")
+					ck.cond(dominatesInstr(hs.get, call), rule, hkey+"/order", ck.P.instrPos(call), funcID(wr), "Get precedes Update", "", "")
+					out = append(out, hs)
+				}
+				continue
+			}
 			// an executor of one of the two writers: the writer fetched, the helper writes
 			if writer, via := ck.executorOf(w.Fn); writer != nil {
 				octx := ck.P.NewCtx(writer)
@@ -1519,9 +1639,10 @@ func (ck *Check) nodeListImmutability(rule string) {
 						steps = 99
 					}
 				}
-				if root == nil || root == st.Addr {
+				if root == nil {
 					continue
 				}
+				// (root == st.Addr: the whole object is overwritten through the pointer)
 				objStores++
 				if r := sharedObj(root, map[ssa.Value]bool{}); r != "" {
 					bad++
@@ -1624,6 +1745,19 @@ func (ck *Check) writeConfirmed(rule string, fn *ssa.Function) {
 			if writer, via := ck.executorOf(w.Fn); writer == fn {
 				ck.executorConfirmed(rule, w.Fn, w.Call.(*ssa.Call))
 				upd = via
+			}
+			// … or in a write helper shared by the two writers
+			if upd == nil {
+				if calls, ok := ck.writeHelperCalls(w); ok {
+					for _, c := range calls {
+						if c.Parent() == fn {
+							if upd == nil {
+								ck.executorConfirmed(rule, w.Fn, w.Call.(*ssa.Call))
+							}
+							upd = c
+						}
+					}
+				}
 			}
 		}
 	}
@@ -2553,10 +2687,87 @@ func (ck *Check) clusterView(rule string) {
 	type req struct{ k, op, v string }
 	// env binds the parameters of a list-watch helper to the arguments of one of its call sites
 	var env map[*ssa.Parameter]ssa.Value
+	// paramField: v reads field i of a structure parameter the env binds (directly, or through the
+	// compiler's spill of the parameter): the value the call site stored into that field of the
+	// literal it passes
+	paramField := func(v ssa.Value) (ssa.Value, bool) {
+		var prm *ssa.Parameter
+		fld := -1
+		switch x := v.(type) {
+		case *ssa.Field:
+			prm, _ = x.X.(*ssa.Parameter)
+			fld = x.Field
+		case *ssa.UnOp:
+			if fa, ok := x.X.(*ssa.FieldAddr); ok && x.Op == token.MUL {
+				if al, ok := fa.X.(*ssa.Alloc); ok && al.Referrers() != nil {
+					n := 0
+					for _, r := range *al.Referrers() {
+						if st, ok := r.(*ssa.Store); ok && st.Addr == ssa.Value(al) {
+							n++
+							prm, _ = st.Val.(*ssa.Parameter)
+						}
+					}
+					if n != 1 {
+						prm = nil
+					}
+					fld = fa.Field
+				}
+			}
+		}
+		if prm == nil || env == nil {
+			return nil, false
+		}
+		bv, ok := env[prm]
+		if !ok {
+			return nil, false
+		}
+		ld, ok := bv.(*ssa.UnOp)
+		if !ok || ld.Op != token.MUL {
+			return nil, false
+		}
+		lit, ok := ld.X.(*ssa.Alloc)
+		if !ok || lit.Referrers() == nil {
+			return nil, false
+		}
+		var val ssa.Value
+		var at *ssa.Store
+		n := 0
+		for _, r := range *lit.Referrers() {
+			switch y := r.(type) {
+			case *ssa.FieldAddr:
+				if y.Field != fld {
+					continue
+				}
+				for _, rr := range *y.Referrers() {
+					if st, ok := rr.(*ssa.Store); ok && st.Addr == ssa.Value(y) {
+						n++
+						val, at = st.Val, st
+					} else if _, isLoad := rr.(*ssa.UnOp); !isLoad {
+						return nil, false
+					}
+				}
+			case *ssa.Store:
+				if y.Addr == ssa.Value(lit) {
+					return nil, false
+				}
+			}
+		}
+		if n != 1 || !dominatesInstr(at, ld) {
+			return nil, false
+		}
+		return val, true
+	}
 	var constStr func(v ssa.Value, depth int) (string, bool)
 	constStr = func(v ssa.Value, depth int) (string, bool) {
 		if depth > 6 {
 			return "", false
+		}
+		if fv, ok := paramField(v); ok {
+			saved := env
+			env = nil
+			s, ok := constStr(fv, depth+1)
+			env = saved
+			return s, ok
 		}
 		switch x := v.(type) {
 		case *ssa.Parameter:
@@ -2634,6 +2845,13 @@ func (ck *Check) clusterView(rule string) {
 		}
 		if ex, ok := v.(*ssa.Extract); ok && ex.Index == 0 {
 			v = ex.Tuple
+		}
+		if fv, ok := paramField(v); ok {
+			saved := env
+			env = nil
+			r, ok := selector(fv, depth+1)
+			env = saved
+			return r, ok
 		}
 		if prm, ok := v.(*ssa.Parameter); ok {
 			if bv, ok := env[prm]; ok {
@@ -2720,6 +2938,19 @@ func (ck *Check) clusterView(rule string) {
 			for _, av := range args[1:] {
 				if _, isP := av.(*ssa.Parameter); isP {
 					usesParam = true
+				}
+				// a field of a structure parameter ("what to watch")
+				switch x := av.(type) {
+				case *ssa.Field:
+					if _, isP := x.X.(*ssa.Parameter); isP {
+						usesParam = true
+					}
+				case *ssa.UnOp:
+					if fa, ok := x.X.(*ssa.FieldAddr); ok {
+						if _, isAl := fa.X.(*ssa.Alloc); isAl {
+							usesParam = true
+						}
+					}
 				}
 			}
 			if usesParam {
